@@ -89,14 +89,18 @@ class CacheRoles:
                             self.table = base.id
         # EVENT: the local through which this activation reaches the marker's event: receiver of .set()
         # / .wait() whose possible values are an asyncio.Event() or element 1 of a table entry
+        # (a name `event`, or an access path such as `in_flight[1]` when the marker record is kept whole)
         cands: Dict[str, int] = {}
         for n in g.nodes:
             if n.kind == 'call' and isinstance(n.ast.func, ast.Attribute) and n.ast.func.attr in ('set', 'wait'):
                 rcv = unalias(g, n, n.ast.func.value)
-                if isinstance(rcv, ast.Name) and self.is_event_value(n, rcv):
-                    cands[rcv.id] = cands.get(rcv.id, 0) + (2 if n.ast.func.attr == 'set' else 1)
+                simple = isinstance(rcv, ast.Name) or (isinstance(rcv, ast.Subscript) and isinstance(rcv.value, ast.Name)
+                                                       and isinstance(rcv.slice, ast.Constant))
+                if simple and self.is_event_value(n, rcv):
+                    cands[norm(rcv)] = cands.get(norm(rcv), 0) + (2 if n.ast.func.attr == 'set' else 1)
         if cands:
             self.event_var = max(sorted(cands), key=lambda k: cands[k])
+        self.event_keep = tuple(x.id for x in ast.walk(ast.parse(self.event_var, mode='eval')) if isinstance(x, ast.Name)) if self.event_var else ()
         missing = [k for k in ('cache', 'wrapped') if getattr(self, k) is None]
         if missing:
             raise AnalysisError(f'cache roles not found: {missing}')
@@ -156,6 +160,8 @@ class CacheRoles:
             v = unalias(self.cfg, n, f.value)
             if isinstance(v, ast.Name):
                 return (v.id, f.attr)
+            if isinstance(v, ast.Subscript) and isinstance(v.value, ast.Name) and isinstance(v.slice, ast.Constant):
+                return (norm(v), f.attr)
         return None
 
     def is_event_value(self, n: Node, e: ast.AST) -> bool:
@@ -210,12 +216,12 @@ class CacheRoles:
         for n in g.nodes:
             if n.kind != 'branch':
                 continue
-            t = resolve(g, n, unalias(g, n, n.meta['test']), keep=[self.event_var] if self.event_var else ())
+            t = resolve(g, n, unalias(g, n, n.meta['test']), keep=self.event_keep)
             if not (isinstance(t, ast.Compare) and len(t.ops) == 1):
                 continue
             sides = [t.left, t.comparators[0]]
             reads_table = [any(isinstance(x, ast.Name) and x.id == self.table for x in ast.walk(s)) for s in sides]
-            has_event = [any(isinstance(x, ast.Name) and x.id == self.event_var for x in ast.walk(s)) for s in sides]
+            has_event = [any(isinstance(x, (ast.Name, ast.Subscript)) and norm(x) == self.event_var for x in ast.walk(s)) for s in sides]
             if (reads_table[0] and has_event[1] and not reads_table[1]) or \
                (reads_table[1] and has_event[0] and not reads_table[0]):
                 tside = sides[0] if reads_table[0] else sides[1]
@@ -468,7 +474,7 @@ def rule_owner_only_unmark(ctx: Ctx, r: CacheRoles, rule: str) -> None:
                       construct=construct_key(r.wrapper.qualname, 'ownership test on the wrong element'))
     # the read feeding the ownership test must not be able to fail: it runs in the clean-up of every computation
     for b_, _pol in own:
-        t_ = resolve(g, b_, unalias(g, b_, b_.meta['test']), keep=[r.event_var] if r.event_var else ())
+        t_ = resolve(g, b_, unalias(g, b_, b_.meta['test']), keep=r.event_keep)
         for x in ast.walk(t_):
             if isinstance(x, ast.Subscript) and isinstance(x.value, ast.Call) and isinstance(x.value.func, ast.Attribute) \
                     and x.value.func.attr == 'get' and isinstance(x.value.func.value, ast.Name) and x.value.func.value.id == r.table:
@@ -836,8 +842,9 @@ def c05(ctx: Ctx) -> None:
         # did the path establish "running loop is not marker loop"?
         foreign = None
         for e in p:
-            if e.src.kind == 'branch' and isinstance(e.src.meta['test'], ast.Compare):
-                t = e.src.meta['test']
+            t0 = resolve(g, e.src, e.src.meta['test'], depth=2, keep=tuple(lv)) if e.src.kind == 'branch' else None
+            if e.src.kind == 'branch' and isinstance(t0, ast.Compare):
+                t = t0
                 names = {x.id for x in ast.walk(t) if isinstance(x, ast.Name)}
                 sides = [t.left] + list(t.comparators)
                 about_marker = bool(names & lv) or any(
@@ -992,6 +999,7 @@ def c06(ctx: Ctx) -> None:
     ctx.rule('C06-R5', 'cancel() only on the locally created waiter task; shield() wraps that task; the shared event is never cleared', 1)
     ctx.rule('C06-R6', 'a RuntimeError of the cross-loop bridge (computing loop closed) leads back to the retry head, never to the caller', 1)
     ctx.rule('C06-R7', 'every exception/cancel edge of the wrapped call passes the wake-up of the waiters', 1)
+    ctx.rule('C06-R8', 'a miss of the cache mapping (KeyError of a probe - the mapping may evict) never leaves the wrapper', 1)
     if not _require_table(ctx, r, 'C06-R1'):
         _publish_roles(ctx, r)
         return
@@ -1013,8 +1021,17 @@ def c06(ctx: Ctx) -> None:
                   detail_bad='an exception of the wrapped function is swallowed (caller returns / retries)',
                   witness=render(g, w), construct=construct_key(r.wrapper.qualname, 'exception swallowed'),
                   examined=len(ee))
+    for pr_ in r.PROBE:
+        ke = [e for e in g.succ[pr_.id] if e.label == 'exc']
+        handlers_ = [x for x in g.nodes if x.kind == 'except']
+        wk = find_path(g, [], [g.raise_exit], avoid=handlers_, start_edges=ke) if ke else None
+        ctx.check('C06-R8', f'KeyError of {norm(pr_.ast)}', _loc(g, pr_), wk is None,
+                  'a miss is handled (probe again under the lock / compute)',
+                  'a read of the cache without a handler: with an evicting mapping (the documented LRU use) the entry just stored can be '
+                  'gone, and the caller gets the cache\'s own KeyError instead of its value', witness=render(g, wk),
+                  construct=construct_key(r.wrapper.qualname, 'probe miss escapes', pr_.ast))
     ev_methods = set()
-    lv = lookup_vars(r) | ({r.event_var} if r.event_var else set())
+    lv = lookup_vars(r) | set(r.event_keep)
     for n in g.nodes:
         if n.kind == 'call':
             rm = r._recv_meth(n)
@@ -1088,7 +1105,7 @@ def c06(ctx: Ctx) -> None:
                       detail_bad=('the handler re-raises also when the waiter task itself finished cancelled: a '
                                   'CancelledError caused by the computing loop\'s shutdown is delivered to a caller nobody cancelled'),
                       witness=render(g, bad),
-                      construct=construct_key(r.wrapper.qualname, 'foreign CancelledError re-raised', h.ast.type or 'bare'))
+                      construct=construct_key(r.wrapper.qualname, 'foreign CancelledError re-raised', '/'.join(sorted(h.meta.get('classes') or ['bare']))))
     if not shield_awaits:
         ctx.violation('C06-R5', 'the wait is not shielded', f'{FILE}:{r.wrapper.lineno}',
                       'cancelling a waiter cancels the shared wait directly',
